@@ -285,6 +285,8 @@ type realSide struct {
 	files map[uint64]*fileRec
 	prev  map[uint64]bool // log numbers present at the last observation
 	nimg  int
+	// tmpMax bounds the watermark a leftover prune-watermark.tmp may hold (set by the runner)
+	tmpMax uint64
 }
 
 func newRealSide(root string) *realSide {
@@ -504,7 +506,7 @@ func (r *realSide) materialise(img diskDesc, tv tailVariant, rng *lib.RNG) (stri
 	}
 	if img.Tmp {
 		// the temporary file may hold anything from nothing to a complete watermark
-		b := wmBytes(uint64(rng.Intn(1000)))
+		b := wmBytes(uint64(rng.Intn(int(r.tmpMax%1000000) + 1)))
 		b = b[:rng.Intn(len(b)+1)]
 		if err := os.WriteFile(filepath.Join(wd, "prune-watermark.tmp"), b, 0o644); err != nil {
 			return "", err
